@@ -16,6 +16,13 @@ pub fn c20_key_generation(rng: ChaCha20Rng)
     assert(k2.0 == hs(draw_bytes(s0, 32), KEYGEN_SALT_spec()));
     let c = ProofCommitmentChallenge::new();
     assert(exists|g: ChaCha20Rng| #[trigger] fresh_rng(g) && c.0 == hs(draw_bytes(g.state(), 32), KEYGEN_SALT_spec()));
+    // the facade and the curve-tagged wrapper generate keys and challenges the same way
+    let k3 = BlsSignature::new_secret_key();
+    assert(exists|g: ChaCha20Rng| #[trigger] fresh_rng(g) && k3.0 == hs(draw_bytes(g.state(), 32), KEYGEN_SALT_spec()));
+    let c2 = BlsSignature::new_proof_challenge();
+    assert(exists|g: ChaCha20Rng| #[trigger] fresh_rng(g) && c2.0 == hs(draw_bytes(g.state(), 32), KEYGEN_SALT_spec()));
+    let k4 = SecretKeyEnum::new(Bls12381::G1);
+    assert(exists|g: ChaCha20Rng| #[trigger] fresh_rng(g) && ske_scalar(k4) == hs(draw_bytes(g.state(), 32), KEYGEN_SALT_spec()));
 }
 
 pub fn c20_signcryption_and_time_lock(pk: &PublicKey, scheme: SignatureSchemes, msg: &[u8], id: &[u8])
@@ -41,4 +48,9 @@ pub fn c20_elgamal_blinder(pk: &PublicKey, sk: &SecretKey)
     let ct = pk.encrypt_key_el_gamal(sk);
     // the blinder (hence c1 = b*G) is a draw from a fresh generator
     assert(ct is Ok ==> exists|g: ChaCha20Rng| #[trigger] fresh_rng(g) && ct->Ok_0.c1 == eg_c1(draw_scalar(g.state())));
+    // with proof: the blinder is the first draw of a fresh generator and the commitment randomness
+    // behind the blinder response is the NEXT draw (not the same one, not a constant)
+    let p = pk.encrypt_key_el_gamal_with_proof(sk);
+    assert(p is Ok ==> exists|g: ChaCha20Rng| #[trigger] fresh_rng(g) && p->Ok_0.ciphertext.c1 == eg_c1(draw_scalar(g.state()))
+        && eg_resp(p->Ok_0.blinder_proof, draw_scalar(next_state(g.state())), p->Ok_0.challenge, draw_scalar(g.state())));
 }
